@@ -35,13 +35,13 @@ def main():
             if os.path.isfile(os.path.join(outdir, f)) and os.path.getsize(os.path.join(outdir, f)) < 400000 and not f.startswith("demo_bin") and f not in ("demo",):
                 shutil.copy(os.path.join(outdir, f), dest)
         readme = open(os.path.join(dest, "README.md")).read()
-        cands = re.findall(r"`((?:cd [^`&]*&& )?(?:g\+\+|python3)[^`]*)`", readme)
+        cands = re.findall(r"`(sh [^`]*run\.sh)`", readme) + re.findall(r"`((?:cd [^`&]*&& )?(?:g\+\+|python3)[^`]*)`", readme)
         cands += [l.strip() for l in readme.splitlines() if l.startswith("    g++") and "demo" in l]
         if not cands:
             cands = [l.strip() for l in readme.splitlines() if l.strip().startswith(("g++", "python3"))]
         cmd = None
         for c in cands:
-            if "demo" in c and "tests/tests.cpp" not in c:
+            if ("demo" in c or "run.sh" in c) and "tests/tests.cpp" not in c:
                 cmd = c
                 break
         if not cmd:
@@ -49,7 +49,7 @@ def main():
             return 2
         # rewrite the agent's paths to the scratch worktree and the kept copy
         for f in os.listdir(dest):
-            if f.endswith((".cpp", ".py", ".sh", ".hpp")):
+            if f.endswith((".cpp", ".py", ".sh", ".hpp")) and f != "gl64_host.hpp":
                 p = os.path.join(dest, f)
                 s = open(p).read()
                 s2 = s.replace(outdir.rstrip("/"), dest).replace(agent_wt.rstrip("/"), wt)
@@ -76,7 +76,7 @@ def main():
         meta["confirmed"] = (rc1 == 0) and passed and (rc3 != 0)
         meta["wall_s"] = round(time.time() - t0, 1)
         meta["repo_head"] = sh("git -C /repo rev-parse --short HEAD")[1].strip()
-        for junk in ("demo", "a.out"):
+        for junk in ("demo", "a.out", "demo_sm600", "demo_sm800", "gl64_host.hpp"):
             try:
                 os.unlink(os.path.join(dest, junk))
             except OSError:
